@@ -665,6 +665,12 @@ class Engine:
             node = ast.parse(h, mode='eval').body
             self.facts.append(self.truth(self.eval_spec(node, st, st)))
         self.covers.append((f'lemma:{lem.name}:hyps-satisfiable', list(self.facts), z3.BoolVal(True)))
+        self.let_nodes = {k: ast.parse(t, mode='eval').body for k, t in getattr(lem, 'lets', {}).items()}
+        for i, step in enumerate(lem.steps):
+            label, text = step if isinstance(step, tuple) else (f's{i}', step)
+            sg = self.truth(self.eval_spec(ast.parse(text, mode='eval').body, st, st))
+            self.oblige(st, sg, f'lemma:{lem.name}:step:{label}', kind='lemma', props=lem.props, text=text)
+            self.facts.append(sg)
         g = self.truth(self.eval_spec(ast.parse(lem.goal, mode='eval').body, st, st))
         self.oblige(st, g, f'lemma:{lem.name}', kind='lemma', props=lem.props, text=lem.text)
         self.frames.pop()
